@@ -494,6 +494,7 @@ def run(tier, seed, replay_path=None):
                 diffs += 1
         if diffs:
             raise HarnessError("determinism self-test: %d of %d histories differed between two executions" % (diffs, nself))
+        beyond = crash_observations(seed, 40 if tier == "quick" else 600, d, valid, scratch)
         known = [f for f in load_known_findings().get("findings", []) if f.get("property") == "C18"]
         known_hit = {}
         classes = {}
@@ -567,6 +568,7 @@ def run(tier, seed, replay_path=None):
                              "grammar_mtime_skewed_edits": sum(c for k, c in op_counts.items() if "@" in k)},
             "runs_per_hour": int(n / max(wall, 1e-6) * 3600),
             "known_findings_hit": sorted(known_hit),
+            "beyond_statement": dict(beyond, note="observations only, never a violation: the statement restricts failing runs to an unreadable or invalid grammar; process death / ENOSPC / EIO during the destination write are outside it"),
             "determinism_selftest": {"histories_run_twice": nself, "differences": 0},
             "real_components": ["peginator_codegen::Compile from the working tree (driver compile)", "rustfmt (format histories)", "kernel file system"],
             "stubbed_components": ["EIO on open of a grammar is injected by the shim", "entropy of every child is seeded", "file timestamps are simulated state: destinations get a seeded sentinel mtime (2001 or 2040) before every run, edited grammars a seeded mtime (now, 1990, 2041, same as destination)"],
@@ -582,6 +584,51 @@ def run(tier, seed, replay_path=None):
         return 0
     finally:
         cleanup_run_dir(d)
+
+
+def crash_observations(seed, n, d, valid, scratch):
+    """Beyond the statement (never a violation): process death in the middle of the destination write, ENOSPC, short
+    write; then an ordinary run. Observed: what the fault left behind and whether the next run repairs it."""
+    obs = {"histories": 0, "faults_fired": {}, "after_fault": {}, "after_next_run": {}}
+    for i in range(n):
+        rng = Rng(derive(seed, "c18-crash", i))
+        hd = os.path.join(d, "crash%04d" % i)
+        os.makedirs(hd)
+        try:
+            g0, g1 = valid[rng.below(len(valid))], valid[rng.below(len(valid))]
+            prefix = rng.choice(["", "use a;"])
+            gp, dp = os.path.join(hd, "g.ebnf"), os.path.join(hd, "g.rs")
+            argv = [sim_bin("driver"), "compile", "--file", gp, "--prefix", prefix]
+            ent = rng.below(1 << 60)
+            with open(gp, "wb") as f:
+                f.write(g0)
+            run_child(argv, hd, base_env(), entropy=ent)
+            old = snapshot(dp)
+            with open(gp, "wb") as f:
+                f.write(g1)
+            want = scratch.get(g1, prefix, False, ent, ())
+            hdr = len(want) - len(want.split(b"\n", 5)[-1]) if want else 200
+            kind = rng.choice(["die_in_header", "die_after_header", "die_in_code", "enospc", "eio", "short_then_die"])
+            k = {"die_in_header": rng.range(1, max(hdr - 2, 2)), "die_after_header": hdr, "die_in_code": hdr + rng.range(1, 2000), "short_then_die": rng.range(1, 4000)}.get(kind, 0)
+            faults = {"enospc": "write:g.rs:1:e28", "eio": "write:g.rs:1:e5"}.get(kind, "write:g.rs:1:die%d" % k)
+            log_p = os.path.join(hd, "shim.log")
+            c = run_child(argv, hd, base_env(), entropy=ent, faults=faults, shim_log=log_p)
+            fired = any("->" in l for l in c.shim_log)
+            obs["histories"] += 1
+            if fired:
+                obs["faults_fired"][kind] = obs["faults_fired"].get(kind, 0) + 1
+            mid = snapshot(dp)
+            state = "absent" if mid is None else "old file intact" if old and mid[0] == old[0] else "complete new file" if mid[0] == want else "empty file" if not mid[0] else "torn file with complete header" if want and mid[0].startswith(want[:hdr]) else "torn file, header incomplete"
+            key = "%s: %s (%s)" % (kind, state, c.status_word())
+            obs["after_fault"][key] = obs["after_fault"].get(key, 0) + 1
+            c2 = run_child(argv, hd, base_env(), entropy=ent)
+            _, marker, _ = split_driver_output(c2.out)
+            fin = snapshot(dp)
+            res = "%s: next run %s, destination %s" % (state, marker, "equals compile-from-scratch" if fin and fin[0] == want else "DIFFERS from compile-from-scratch")
+            obs["after_next_run"][res] = obs["after_next_run"].get(res, 0) + 1
+        finally:
+            shutil.rmtree(hd, ignore_errors=True)
+    return obs
 
 
 def match_known(known, cfg, v):
